@@ -19,6 +19,8 @@
 #
 
 from datetime import datetime
+from decimal import Decimal
+from fractions import Fraction
 import json
 import pickle
 import random
@@ -242,6 +244,10 @@ class Input(object):
         self.value = value_to_satoshi(value, network=network)
         if isinstance(self.value, float):
             if not self.value.is_integer():
+                raise TransactionError("Input value must be an integer amount of the smallest denominator")
+            self.value = int(self.value)
+        elif isinstance(self.value, (Decimal, Fraction)):
+            if self.value % 1:
                 raise TransactionError("Input value must be an integer amount of the smallest denominator")
             self.value = int(self.value)
         if not keys:
@@ -687,6 +693,10 @@ class Output(object):
         self.value = value_to_satoshi(value, network=network)
         if isinstance(self.value, float):
             if not self.value.is_integer():
+                raise TransactionError("Output value must be an integer amount of the smallest denominator")
+            self.value = int(self.value)
+        elif isinstance(self.value, (Decimal, Fraction)):
+            if self.value % 1:
                 raise TransactionError("Output value must be an integer amount of the smallest denominator")
             self.value = int(self.value)
         self.lock_script = _bytes_or_hex(lock_script)
